@@ -1177,7 +1177,7 @@ impl Transaction {
                 if self.from.iter().any(|slip| {
                     slip.amount > 0
                         && slip.slip_type != SlipType::Bound
-                        && slip.block_id + blockchain.genesis_period < next_block_id
+                        && slip.block_id.saturating_add(blockchain.genesis_period) < next_block_id
                 }) {
                     error!("ERROR 582042: transaction spends an output older than the genesis period");
                     return false;
